@@ -226,6 +226,6 @@ ArchiveSound == \A a, b \in archive : a[1] = b[1] => a[2] = b[2]
 ReachDownloadApp == ~(lastOk /\ dl > 0 /\ built = 0 /\ lastW = "w2")
 ReachRebuildAfterFp == ~(lastOk /\ built > 0 /\ lastW = "w2" /\ proj["w2"].fp # proj["w1"].fp /\ archive # {})
 
-CexPrint == DownloadEqLocal \/ ~PrintT(<<"@@", ToJson(hist)>>)
+CexPrint == DownloadEqLocal \/ PrintT(<<"@@", ToJson(hist)>>)
 GenPrint == (GenDepth > 0 /\ TLCGet("level") = GenDepth) => PrintT(<<"@@", ToJson(hist)>>)
 =============================================================================
